@@ -12,7 +12,7 @@ META = {
                    'signs with the client-to-server keys, unseals and verifies with the server-to-client keys, the four MS-NLMP magic strings '
                    'are selected by (function, is_client) as in 3.4.5.2/3.4.5.3 and the keys reach the right fields; (R16.4) the sequence '
                    'number used by mac is the field value and it is incremented exactly once per sealed message; (R16.5) RC4 index '
-                   'arithmetic uses modulus 256 only. Byte identity with MS-NLMP (values of HMAC-MD5/RC4/MD5) is not decided.',
+                   'arithmetic uses modulus 256 only; (R16.6) the RC4 output step advances i, then j, swaps, then reads the output byte. Byte identity with MS-NLMP (values of HMAC-MD5/RC4/MD5) is not decided.',
     'assumptions': ['hmac/md-5 crates compute HMAC-MD5/MD5', 'RC4 permutation values are not evaluated'],
     'trusted_base': ['rustc nightly MIR construction', 'mirfacts exporter', 'rules/c16.py, c01.py, dsl.py, sym.py, facts.py'],
 }
@@ -215,3 +215,25 @@ def run(ctx):
                         ctx.check(c == 256, 'R16.5', 'rc4:mod:%s' % k, '%s: constant modulus %d on an RC4 index' % (k.rsplit('::', 1)[-1], c), '%s:%d' % (b.file, stt['line']),
                                   '%s reduces an RC4 index modulo %d; the state has 256 entries (the key stream diverges after %d bytes)' % (k, c, c - 1))
     ctx.floor('R16.5', 'RC4 functions scanned', n_rc4, 3)
+    # ---- R16.6 PRGA step order in Rc4::next: i advances, j advances by S[i], S[i] <-> S[j], then the output byte S[S[i]+S[j]] is read ---
+    nx = ctx.body('nla::rc4::Rc4::next')
+    n_nx = 0
+    for path, st in feasible_paths(nx, P, limit=1000):
+        evs = [e for e in st.events if e[0] in ('call', 'store')]
+        pos = {}
+        for idx, e in enumerate(evs):
+            if e[0] == 'store' and e[2]['p'] and e[2]['p'][-1].get('name') in ('i', 'j'):
+                pos.setdefault('store_' + e[2]['p'][-1]['name'], idx)
+            elif e[0] == 'call' and e[1].callee.endswith('::swap'):
+                pos.setdefault('swap', idx)
+            elif e[0] == 'call' and len(e[2]) == 2 and all(strip(a)[0] == 'index' for a in e[2]):
+                pos['out_index'] = idx          # S[i] + S[j]: index of the output byte
+        rv = strip(resolve(st, st.env.get(0)))
+        if rv[0] == 'unknown':
+            continue
+        n_nx += 1
+        order_ok = all(k in pos for k in ('store_i', 'store_j', 'swap', 'out_index')) and pos['store_i'] < pos['store_j'] < pos['swap'] < pos['out_index']
+        ctx.check(order_ok and rv[0] == 'index', 'R16.6', 'rc4:prga_order', 'Rc4::next: i += 1; j += S[i]; swap(S[i], S[j]); output S[S[i] + S[j]] in that order', nx.where(),
+                  'Rc4::next does not perform the RC4 output step in the order i, j, swap, read (found %s): the key stream differs from RC4 for some keys, '
+                  'so sealed messages and the wrapped session key are rejected by the peer' % sorted(pos.items(), key=lambda kv: kv[1]))
+    ctx.floor('R16.6', 'paths of Rc4::next', n_nx, 1)
